@@ -15,6 +15,11 @@ func NormalizeURL(URL *models.URL, parentURL *models.URL) (err error) {
 	// Clean the URL by removing leading and trailing quotes
 	URL.Raw = strings.Trim(URL.Raw, `"'`)
 
+	// As browsers do (URL standard): drop leading and trailing C0 control or space characters
+	// and any ASCII tab or newline, instead of rejecting e.g. src=" https://example.com/a.png"
+	URL.Raw = strings.TrimFunc(URL.Raw, func(r rune) bool { return r <= 0x20 })
+	URL.Raw = strings.NewReplacer("\t", "", "\n", "", "\r", "").Replace(URL.Raw)
+
 	var adaParse *goada.Url
 
 	parsedURL, err := url.Parse(URL.Raw)
